@@ -7,7 +7,15 @@
 //!  (b) `egress/scen.rs` on `egress/rig.rs`: single-interface scenarios on all three media
 //!      (UDP / ICMP / TCP / ARP / NDISC / SLAAC / MLD / IGMP / DHCP / DNS / raw sockets), the full
 //!      product medium x MTU x checksum capability set x scenario x IP version x variant; the
-//!      device pre-fills transmit buffers with 0xA5 so that bytes smoltcp does not write show;
+//!      device pre-fills transmit buffers with 0xA5 / 0x5A so that bytes smoltcp does not write
+//!      show; 802.15.4 rigs with an extended and with a short hardware address; histories that
+//!      change the address list (DHCP renewal that changes the lease, scenario `renumbering`:
+//!      the application replaces / removes the address in the middle of a TCP active open, an
+//!      established connection, datagrams waiting for neighbor resolution, a fragment train, a
+//!      DNS query) judged against the address list at the moment of transmission; the
+//!      application model "echo with the received metadata" (examples/server.rs) on UDP sockets
+//!      for unicast / broadcast / multicast destinations (own signatures
+//!      `C10/source/udp-echo-of-received-metadata/<kind of destination>`);
 //!  (c) `egress/cat.rs`: the replies to the C03 seed / mutant catalogue on the many-socket worlds;
 //!  (d) `egress/bfsx.rs`: breadth-first exploration of event sequences (sends, inbound requests,
 //!      timers, neighbor answers, a device that takes one frame per event) on one interface.
@@ -62,6 +70,7 @@ struct JobOut {
     pending_trains: u64,
     abandoned_trains: u64,
     raw_frames: u64,
+    lenient_fragments: u64,
     findings: Vec<(String, String)>,
     machinery: Option<String>,
     /// digest of everything emitted (determinism re-check)
@@ -160,8 +169,12 @@ fn run_job(j: &Job, trace: bool) -> (JobOut, Vec<String>) {
             out.clean.insert(rec.verdict.shape.clone(), (rec.frame.clone(), rec.ctx.clone()));
         }
         for f in &rec.verdict.findings {
+            let sig = match (&rec.source_tag, f.clause) {
+                (Some(t), "source") => format!("C10/source/{}", t),
+                _ => f.sig(),
+            };
             out.findings.push((
-                f.sig(),
+                sig,
                 format!(
                     "scenario {} (v{}, variant {}) on {}: {} | t={}us frame[{}] {} ({}){}",
                     s.name,
@@ -187,6 +200,7 @@ fn run_job(j: &Job, trace: bool) -> (JobOut, Vec<String>) {
     for h in &rig.hangs {
         out.findings.push(("C10/hang/device-loop".into(), format!("scenario {} on {}: {}", s.name, cfg.name(), h)));
     }
+    out.lenient_fragments = rig.later_fragments_from_a_removed_address;
     out.polls = rig.polls;
     out.pending_trains = rig.mon.pending() as u64;
     out.abandoned_trains = rig.mon.abandoned;
@@ -228,6 +242,7 @@ pub fn run(tier: Tier) -> i32 {
     let mut per_scen: BTreeMap<String, (u64, u64)> = BTreeMap::new();
     let mut b_total = Agg::default();
     let (mut polls, mut pending, mut abandoned, mut raw_frames) = (0u64, 0u64, 0u64, 0u64);
+    let mut lenient_fragments = 0u64;
     let mut silent_jobs = vec![];
     for (j, (o, _)) in js.iter().zip(outs.iter()) {
         let name = sc[j.scen].name;
@@ -252,6 +267,7 @@ pub fn run(tier: Tier) -> i32 {
         pending += o.pending_trains;
         abandoned += o.abandoned_trains;
         raw_frames += o.raw_frames;
+        lenient_fragments += o.lenient_fragments;
     }
     // monitor self-test: the validator must not be blind. Every single-bit-pattern mutant of the
     // first 128 octets of one clean frame per shape is validated by a fresh monitor; evidence
@@ -328,6 +344,7 @@ pub fn run(tier: Tier) -> i32 {
             "frames_per_checksum_capability_set": per_caps,
             "per_scenario(runs,frames)": per_scen.iter().map(|(k, v)| (k.clone(), json!([v.0, v.1]))).collect::<BTreeMap<_, _>>(),
             "frames_tagged_raw_socket(exempt_from_source_rule_only)": raw_frames,
+            "later_ipv4_fragments_sent_from_an_address_removed_after_the_first_fragment_left(lenient reading: not reported)": lenient_fragments,
             "fragment_trains_incomplete_at_end_of_scenario": pending,
             "fragment_trains_restarted": abandoned,
             "runs_without_any_frame(default caps)": silent_jobs,
@@ -482,7 +499,7 @@ pub fn run(tier: Tier) -> i32 {
     );
     rep.assumptions.push("MTU sets: IPv4 {68, 69, 576, 1500}, IPv6 {1280, 1281, 1500} (IP MTU; Ethernet device MTU = IP MTU + 14), IEEE 802.15.4 device MTU {125, 127} and, whatever the device reports, never more than 125 octets per frame (127 of the PHY minus the FCS the device appends; signature mtu/ieee802154/frame-exceeds-125-octets), each with an extended and with a short interface hardware address; IPv6 scenarios are not run below 1280 (outside the quantified domain)".into());
     rep.assumptions.push("checksum capability sets: default, each of ipv4/udp/tcp/icmpv4/icmpv6 with tx off (Checksum::Rx) one at a time, all five tx off, all five rx off (Checksum::Tx), all five off both ways (Checksum::None); a checksum is only asserted when smoltcp is the one computing it; IGMP has no capability and is always asserted".into());
-    rep.assumptions.push("transmit buffers are pre-filled with 0xA5, and with the complement 0x5A in every 802.15.4 run and the default / all-tx-off runs of the other media; own addresses at emission time = union of Interface::ip_addrs() before and after the poll that emitted the frame; frames whose (src, dst, protocol) equals a packet the harness pushed through a raw socket are exempt from the source rule only".into());
+    rep.assumptions.push("transmit buffers are pre-filled with 0xA5, and with the complement 0x5A in every 802.15.4 run and the default / all-tx-off runs of the other media; own addresses at emission time = union of Interface::ip_addrs() before and after the poll that emitted the frame; frames whose (src, dst, protocol) equals a packet the harness pushed through a raw socket are exempt from the source rule only; later fragments of an IPv4 datagram are judged against the addresses owned when its first fragment left (lenient reading, counted in the evidence), every other frame - retransmissions included - against the list at its own transmission".into());
     rep.assumptions.push("tcp2: k<=2 (quick) / k<=3 (thorough) deviations (drop / duplicate / reorder / timer-first / reader stall); event sequences: BFS over 14 events to depth 3-4 (quick) / 5-6 (thorough), see the parts list; catalogue: seeds + truncations + boundary-value (quick) / all-value (thorough) single-byte mutants of the first 64 (quick) / 96 (thorough) octets, raw and with checksum fix-up; panics on received garbage in part (c) are C03's verdict and only counted here".into());
     rep.assumptions.push("trusted: the independent parser (egress/mon.rs), the RFC 1071 reference sum, the stimulus builders of the C03 harness".into());
     rep.finish()
